@@ -192,6 +192,55 @@ def ttaDetectMarker (l : Loc) (offset : Int) : Res (Option Loc) :=
   (subLocationFromOffsets l offset (offset + 3)).bind fun r =>
     .ok (if containsOverlappingExons r then none else some r)
 
+/-! ### partial genes (fuzzy `<`/`>` positions) and the text form of `codon_start` -/
+
+/-- per part: (start is a `BeforePosition`, end is an `AfterPosition`) -/
+abbrev Fuzz := List (Bool × Bool)
+
+/-- `isinstance(location.end, AfterPosition)`: `location.end` is the end position object of the FIRST part
+    attaining the maximal end (Python `max`) -/
+def endIsAfter : List Part → Fuzz → Bool
+  | p :: ps, f :: fs =>
+    let rec go (best : Int) (flag : Bool) : List Part → Fuzz → Bool
+      | q :: qs, g :: gs => if q.hi > best then go q.hi g.2 qs gs else go best flag qs gs
+      | _, _ => flag
+    go p.hi f.2 ps fs
+  | _, _ => false
+
+/-- `isinstance(location.start, BeforePosition)` (first part attaining the minimal start) -/
+def startIsBefore : List Part → Fuzz → Bool
+  | p :: ps, f :: fs =>
+    let rec go (best : Int) (flag : Bool) : List Part → Fuzz → Bool
+      | q :: qs, g :: gs => if q.lo < best then go q.lo g.1 qs gs else go best flag qs gs
+      | _, _ => flag
+    go p.lo f.1 ps fs
+  | _, _ => false
+
+/-- the condition under which a protein end past the gene is truncated instead of refused -/
+def ambiguousEnd (l : Loc) (fz : Fuzz) : Bool :=
+  (!isRev l && endIsAfter l.parts fz) || (isRev l && startIsBefore l.parts fz)
+
+/-- `Feature.get_sub_location_from_protein_coordinates` including the branch for partial genes: an `end`
+    beyond the product is truncated to the product's length when the gene's 3' end is ambiguous -/
+def subLocationFuzzy (amb : Bool) (l : Loc) (s e : Int) : Res Loc :=
+  if !(decide (0 ≤ s) && decide (s ≤ l.len / 3 - 1)) then .valueError
+  else if decide (1 ≤ e) && decide (e ≤ l.len / 3) then subLocation l s e
+  else if decide (e > 0) && amb then subLocation l s (l.len / 3)
+  else .valueError
+
+/-- `int(raw_start[0]) - 1` of the text form of the qualifier: `none` = not a digit (→ SecmetInvalidInputError);
+    only ASCII digits are modelled, the empty string is not generated (IndexError) -/
+def codonStartOfText (raw : String) : Option Int :=
+  match raw.toList with
+  | c :: _ => if c.isDigit then some (c.toNat - 48 : Nat) else none
+  | [] => none
+
+/-- `frameshift_location_by_qualifier(location, raw_start: str, undo)` -/
+def frameshiftText (l : Loc) (raw : String) (undo : Bool) : Res Loc :=
+  match codonStartOfText raw with
+  | some c => frameshift l c undo
+  | none => .valueError
+
 /-! ### write-out / rebuild of a prepeptide: `to_biopython` → `Prepeptide.from_biopython` -/
 
 /-- `[leader_location]? + [core.location] + [tail_location]?` as collected by `from_biopython` -/
